@@ -179,11 +179,14 @@ def window_lemma_unit(res):
 
 def units(tier):
     from .c16 import partition_unit, extend_path_unit, postprocess_unit, search_agreement_unit
+    from .c13 import lcd_list_unit, combined_view_unit
     return [
         Unit("C05/check_for_loopcarried_dep/post-processing(sum, members, reported once)", postprocess_unit, "P", [(KDG, "KernelDG.check_for_loopcarried_dep")]),
         Unit("C05/search-call-agreement(worker = sequential)", search_agreement_unit, "P", [(KDG, "KernelDG._extend_path"), (KDG, "KernelDG.check_for_loopcarried_dep")]),
         Unit("C05/lemma/cross-iteration-paths-lie-inside-the-doubled-kernel", window_lemma_unit, "L", []),
         Unit("C05/full_analysis_dict(LCD column and summary, any previous marks)", lcd_column_unit, "Pb", [(FE, "Frontend.full_analysis_dict")]),
+        Unit("C05/combined_view(LCD cells and total; cell helpers abstract)", combined_view_unit, "Pb", [(FE, "Frontend.combined_view")], decisive=False),
+        Unit("C05/loopcarried_dependencies(LCD list rows)", lcd_list_unit, "Pb", [(FE, "Frontend.loopcarried_dependencies")], decisive=False),
         Unit("C05/check_for_loopcarried_dep/partition(kernels >= 50 lines)", partition_unit, "P", [(KDG, "KernelDG.check_for_loopcarried_dep")]),
         Unit("C05/_extend_path", extend_path_unit, "P", [(KDG, "KernelDG._extend_path")]),
         bounded_unit("C05/parallel-search-equals-sequential", "c16_parallel", [(KDG, "KernelDG.check_for_loopcarried_dep")], timeout=1800),
